@@ -147,6 +147,11 @@ def parseCmd {S} (cd : Codec S) (toks : List String) : Option (Cmd S) :=
   | ["own", v] => some (.own v)
   | ["log"] => some .log
   | ["gdupdate", lr, vs] => do pure (.gdupdate (← sc lr) (← parseNames vs))
+  | ["gd", g, lr] => do pure (.gd g (← sc lr))
+  | ["gdstep", g, vs] => do pure (.gdstep g (← parseNames vs))
+  | ["cost", w, c, o, t] => do
+    let c ← if c == "mse" then some Cost.mse else if c == "xent" then some Cost.xent else none
+    pure (.cost w c o t)
   | ["dense", l, i, o, act, w, b] => do
     pure (.dense l (← i.toNat?) (← o.toNat?) (← parseAct act) (← scs w) (← scs b))
   | ["convl", l, f, d, r, c, sr, sc', act, w, b] => do
